@@ -201,7 +201,8 @@ fn family_life(args: &Args) -> i32 {
     let out = Arc::new(out::Out::create(&args.out));
     let outq = Arc::new(out::Out::create(&format!("{}.q.ndjson", args.out)));
     let index: Vec<Value> = jobs.iter().enumerate().map(|(k, p)| json!({"sc": format!("life-{k}"), "params": p.to_json()})).collect();
-    let res = run_parallel_multi(jobs, |p, k| run(p, &format!("life-{k}")), vec![out.clone(), outq.clone()]);
+    let outm = Arc::new(out::Out::create(&format!("{}.m.ndjson", args.out)));
+    let res = run_parallel_multi(jobs, |p, k| run(p, &format!("life-{k}")), vec![out.clone(), outq.clone(), outm.clone()]);
     let idx = json!({"family":"life","scenarios":index,"summaries":res,"events":out.events.load(Ordering::Relaxed),
                      "qevents":outq.events.load(Ordering::Relaxed)});
     std::fs::write(format!("{}.index.json", args.out), serde_json::to_string(&idx).unwrap()).unwrap();
